@@ -20,11 +20,14 @@ pub mod conv;
 pub mod eval;
 #[path = "../c01/pgen.rs"]
 pub mod pgen;
+#[path = "msleval.rs"]
+pub mod msleval;
 
 use crate::compile_util::*;
 use crate::util::*;
 use conv::*;
 use eval::*;
+use msleval::{MslEval, Stuck, TopArg};
 use rssl::ir;
 use rssl_ast as ast;
 use sx::*;
@@ -558,6 +561,91 @@ pub fn run_program(src: &str, only: Option<(&str, &[Vec<V>])>, nvec: usize, rng:
         };
         let obs = if unsupported && !obs.starts_with("panic") { "unsupported".to_string() } else { obs };
         hist.add(if obs == "unsupported" { "gen:fn:unsupported" } else { "gen:fn:supported" });
+        // ---- oracle: the emitted Metal tree under C++ reference semantics == the IR under its typed semantics
+        if fails.is_empty() && obs.starts_with("ast ") {
+            if let Some(items) = &module_sx {
+                let me = MslEval::new(items, false);
+                let statics: Vec<(String, V)> = p.globals.iter().filter(|g| g.param_mode).map(|g| (g.name.clone(), g.init)).collect();
+                // file-scope constants start with the value the IR gives them
+                match me.init_mem() {
+                    Some(_) => {}
+                    None => fails.push("the initialisers of the emitted constants do not evaluate".into()),
+                }
+                for (v, want) in vectors.iter().zip(&ir_results) {
+                    let want = match want {
+                        Some(w) => w,
+                        None => {
+                            hist.add("gen:vector:ir-undefined");
+                            continue;
+                        }
+                    };
+                    hist.add("gen:vector:defined");
+                    let top: Vec<TopArg> = params.iter().zip(v).map(|((d, _), x)| if *d == 0 { TopArg::Val(*x) } else { TopArg::Var(*x) }).collect();
+                    let cmp = |got: &Option<(V, Vec<Option<V>>, Vec<V>)>| -> Result<(), String> {
+                        let (ret, finals, gl) = match got {
+                            Some(g) => g,
+                            None => return Err("is undefined".into()),
+                        };
+                        if *ret != want.ret {
+                            return Err(format!("returns {}", ret.show()));
+                        }
+                        for (i, f) in finals.iter().enumerate() {
+                            if let Some(f) = f {
+                                if *f != want.params[i] {
+                                    return Err(format!("leaves {} in argument {}", f.show(), i));
+                                }
+                            }
+                        }
+                        let mut k = 0;
+                        for (gi, g) in p.globals.iter().enumerate() {
+                            if g.param_mode {
+                                if gl[k] != want.globals[gi] {
+                                    return Err(format!("leaves {} in static {}", gl[k].show(), g.name));
+                                }
+                                k += 1;
+                            } else if want.globals[gi] != g.init {
+                                return Err(format!("constant {} changed in the IR evaluation", g.name));
+                            }
+                        }
+                        Ok(())
+                    };
+                    msleval::take_stuck();
+                    let got = me.run(emitted_name, &top, &statics);
+                    let why = msleval::take_stuck();
+                    if let Err(diff) = cmp(&got) {
+                        if got.is_none() && matches!(why, Some((Stuck::Uninit, _))) {
+                            // the source reads an `out` parameter or a local before writing it: undefined in the source as well
+                            hist.add("gen:vector:uninitialised-read");
+                            continue;
+                        }
+                        if got.is_none() && matches!(why, Some((Stuck::InvalidSource, _))) {
+                            // e.g. `switch` on a float: accepted by rssl's type checker, valid neither in HLSL nor in Metal
+                            hist.add("gen:vector:source-not-valid-hlsl");
+                            continue;
+                        }
+                        let detail = format!(
+                            "{} args [{}]: IR gives {} but the emitted Metal {}{}",
+                            emitted_name,
+                            v.iter().map(|x| x.show()).collect::<Vec<_>>().join(","),
+                            want.show(),
+                            diff,
+                            why.map(|w| format!(" (stuck at: {})", w.1)).unwrap_or_default()
+                        );
+                        // classification against the alternative reading / the known hazards
+                        let alt = MslEval::new(items, true).run(emitted_name, &top, &statics);
+                        msleval::take_stuck();
+                        if cmp(&alt).is_ok() && items.iter().any(has_literal_hazard) {
+                            fails.push(format!("class:metal-integer-literal-typing ## {}", detail));
+                        } else if inout_order_hazard(&p.prog) {
+                            fails.push(format!("class:inout-copy-in-after-later-arguments ## {}", detail));
+                        } else {
+                            fails.push(detail);
+                        }
+                        break;
+                    }
+                }
+            }
+        }
         let oracle = if !fails.is_empty() { format!("FAIL:{}", fails[0]) } else { "ok".to_string() };
         out.case(&req, &obs, &oracle);
     }
@@ -581,6 +669,18 @@ pub fn run_request(line: &str, out: &mut Out, hist: &mut Hist) {
 pub fn run_stream(args: &Args, out: &mut Out, hist: &mut Hist) {
     let n = if args.thorough() { 3000 } else { 150 };
     let mut rng = Rng::new(args.seed ^ 0x5eed_c02);
+    // aliasing calls first: statics passed as out/inout arguments to functions that touch them, one variable twice, ...
+    let na = if args.thorough() { 2000 } else { 120 };
+    for _ in 0..na {
+        let mut prng = rng.fork();
+        let src = alias_program(&mut prng);
+        let mut arng = rng.fork();
+        hist.add("gen:alias-programs");
+        if let Err(pn) = guard(|| run_program(&src, None, 4, &mut arng, out, hist)) {
+            hist.add("gen:harness-panic");
+            out.case(&format!("C02.gen\t{}\t-\t\t-\t-", one_line(&src)), "harness-panic", &format!("SKIP:harness panic {}", pn));
+        }
+    }
     for k in 0..n {
         let opts = pgen::GenOpts { floats: k % 3 != 0, calls: true, max_depth: 1 + (k % 3) as u32 };
         // the generator of C01 also emits calls of built-in functions (not in the subset modelled here): draw again
@@ -598,6 +698,219 @@ pub fn run_stream(args: &Args, out: &mut Out, hist: &mut Hist) {
             out.case(&format!("C02.gen\t{}\t-\t\t-\t-", one_line(&src)), "harness-panic", &format!("SKIP:harness panic {}", pn));
         }
     }
+}
+
+
+// ------------------------------------------------------------------------------------------------ known hazards
+fn lit_only(e: &Sx) -> bool {
+    match e.head() {
+        "lit" => e.args()[0].atom() == "int",
+        "un" => matches!(e.args()[0].atom(), "Minus" | "Plus" | "BitwiseNot") && lit_only(&e.args()[1]),
+        "bin" => lit_only(&e.args()[1]) && lit_only(&e.args()[2]),
+        _ => false,
+    }
+}
+
+/// where Metal's integer literal types can differ from RSSL's exact literal int: a literal that does not fit `int`
+/// (in particular `-2147483648`), or arithmetic on literals only
+fn has_literal_hazard(e: &Sx) -> bool {
+    if let Sx::L(items) = e {
+        if e.head() == "lit" && e.args()[0].atom() == "int" {
+            if e.args()[1].atom().parse::<u128>().map(|n| n >= (1u128 << 31)).unwrap_or(true) {
+                return true;
+            }
+        }
+        if e.head() == "bin" && lit_only(&e.args()[1]) && lit_only(&e.args()[2]) {
+            return true;
+        }
+        return items.iter().any(has_literal_hazard);
+    }
+    false
+}
+
+fn param_dirs(prog: &[Sx], id: &str) -> Option<Vec<bool>> {
+    prog.iter()
+        .find(|f| f.head() == "fn" && f.args()[0].atom() == id)
+        .map(|f| f.args()[2].args().iter().map(|q| q.args()[1].atom() != "in").collect())
+}
+
+/// does evaluating `e` possibly write the variable `target` (`(var n)` / `(glob n)`)?
+fn may_write(prog: &[Sx], e: &Sx, target: &Sx) -> bool {
+    if let Sx::L(items) = e {
+        if e.head() == "op" {
+            let name = e.args()[0].atom();
+            let writes = name.ends_with("Assignment") || name.starts_with("Prefix") || name.starts_with("Postfix");
+            if writes && e.args().len() > 1 && &e.args()[1] == target {
+                return true;
+            }
+        }
+        if e.head() == "call" {
+            // a callee can write any static; and it writes the out/inout arguments
+            if target.head() == "glob" {
+                return true;
+            }
+            if let Some(dirs) = param_dirs(prog, e.args()[0].atom()) {
+                for (d, a) in dirs.iter().zip(&e.args()[1..]) {
+                    if *d && a == target {
+                        return true;
+                    }
+                }
+            }
+        }
+        return items.iter().any(|i| may_write(prog, i, target));
+    }
+    false
+}
+
+/// a call whose out/inout argument variable may be written by a later argument expression: the IR copies the value in
+/// when it reaches the argument, the emitted trampoline when all arguments have been evaluated
+fn inout_order_hazard_in(prog: &[Sx], e: &Sx) -> bool {
+    if let Sx::L(items) = e {
+        if e.head() == "call" {
+            if let Some(dirs) = param_dirs(prog, e.args()[0].atom()) {
+                let args = &e.args()[1..];
+                for i in 0..args.len().min(dirs.len()) {
+                    if dirs[i] {
+                        for j in i + 1..args.len().min(dirs.len()) {
+                            if !dirs[j] && may_write(prog, &args[j], &args[i]) {
+                                return true;
+                            }
+                        }
+                    }
+                }
+            }
+        }
+        return items.iter().any(|i| inout_order_hazard_in(prog, i));
+    }
+    false
+}
+
+fn inout_order_hazard(prog: &[Sx]) -> bool {
+    prog.iter().any(|f| inout_order_hazard_in(prog, f))
+}
+
+// ------------------------------------------------------------------------------------------------ aliasing programs
+/// small programs built around calls whose reference arguments alias: a static passed as out/inout argument to a
+/// function that (transitively) reads/writes the same static, one variable passed to two out/inout parameters, an
+/// out/inout argument also read (or written) by another argument expression
+pub fn alias_program(rng: &mut Rng) -> String {
+    let t = *rng.pick(&["int", "uint", "int", "float"]);
+    let lit = |rng: &mut Rng| -> String {
+        match t {
+            "int" => rng.pick(&["0", "1", "2", "3", "7", "-1", "-5", "100"]).to_string(),
+            "uint" => rng.pick(&["0u", "1u", "2u", "3u", "7u", "100u"]).to_string(),
+            _ => rng.pick(&["0.0f", "1.0f", "2.5f", "-1.5f"]).to_string(),
+        }
+    };
+    let mut out = String::new();
+    out.push_str(&format!("static {} g1 = {};\nstatic {} g2 = {};\n\n", t, lit(rng), t, lit(rng)));
+    // a function that only touches the statics
+    out.push_str(&format!("void bump()\n{{\n    g1 = g1 + {};\n}}\n\n", lit(rng)));
+    // the callee
+    let d1 = *rng.pick(&["out", "inout", "inout"]);
+    let second: Option<&str> = match rng.below(4) {
+        0 => None,
+        1 => Some("in"),
+        2 => Some("out"),
+        _ => Some("inout"),
+    };
+    let void_ret = rng.chance(1, 3);
+    let mut decl = vec![format!("{} {} p1", d1, t)];
+    if let Some(d2) = second {
+        decl.push(format!("{}{} p2", if d2 == "in" { "".to_string() } else { format!("{} ", d2) }, t));
+    }
+    out.push_str(&format!("{} h({})\n{{\n", if void_ret { "void" } else { t }, decl.join(", ")));
+    if d1 == "out" {
+        out.push_str(&format!("    p1 = {};\n", lit(rng)));
+    }
+    if second == Some("out") {
+        out.push_str(&format!("    p2 = {};\n", lit(rng)));
+    }
+    let mut pool: Vec<String> = vec![
+        "p1 = p1 + g1;".into(),
+        "g1 = g1 + p1;".into(),
+        format!("g1 += {};", lit(rng)),
+        format!("p1 += {};", lit(rng)),
+        "g2 = g1 - p1;".into(),
+        "if (p1 > g1)\n    {\n        g1 = p1;\n    }\n    else\n    {\n        p1 = g1;\n    }".into(),
+        "bump();".into(),
+        "g1 = p1;".into(),
+        "p1 = g2;".into(),
+    ];
+    if second.is_some() {
+        pool.push("g1 = g1 * p2;".into());
+        pool.push("p1 = p1 - p2;".into());
+        if second != Some("in") {
+            pool.push("p2 = p2 + p1;".into());
+            pool.push("p2 = g1;".into());
+        }
+    }
+    let n = 2 + rng.below(4);
+    for _ in 0..n {
+        out.push_str(&format!("    {}\n", rng.pick(&pool)));
+    }
+    if !void_ret {
+        out.push_str(&format!("    return {};\n", rng.pick(&["g1 + p1", "p1", "g1", "g2 - p1"])));
+    }
+    out.push_str("}\n\n");
+    // an intermediate function: forwards its own parameter and touches the static around the call
+    let wrap = rng.chance(1, 2);
+    if wrap {
+        let inner_args = match second {
+            None => "a".to_string(),
+            Some("in") => format!("a, {}", rng.pick(&["g1", "a", "g2"])),
+            Some(_) => format!("a, {}", rng.pick(&["g2", "a", "g1"])),
+        };
+        out.push_str(&format!(
+            "void k(inout {} a)\n{{\n    a = a + {};\n    {}h({});\n    g1 = g1 + a;\n}}\n\n",
+            t,
+            lit(rng),
+            if rng.chance(1, 2) { "bump();\n    " } else { "" },
+            inner_args
+        ));
+    }
+    // the caller
+    out.push_str(&format!("{} f({} a)\n{{\n    {} x = a;\n    {} y = {};\n", t, t, t, t, lit(rng)));
+    let ncalls = 1 + rng.below(2);
+    for c in 0..ncalls {
+        let first = *rng.pick(&["g1", "x", "g1", "g2", "y"]);
+        let call = if wrap && rng.chance(1, 3) {
+            format!("k({})", first)
+        } else {
+            match second {
+                None => format!("h({})", first),
+                Some("in") => {
+                    let other = match rng.below(8) {
+                        0 => first.to_string(),
+                        1 => format!("{} + {}", first, lit(rng)),
+                        2 => format!("{} * 2", first),
+                        3 => "g1".to_string(),
+                        4 => "x".to_string(),
+                        // the ordering hazard (copy-in before / after the later argument)
+                        5 => format!("({}++)", first),
+                        6 => format!("({} = {})", first, lit(rng)),
+                        _ => "g1 - g2".to_string(),
+                    };
+                    format!("h({}, {})", first, other)
+                }
+                Some(_) => {
+                    let other = match rng.below(4) {
+                        0 | 1 => first,
+                        2 => "g1",
+                        _ => "x",
+                    };
+                    format!("h({}, {})", first, other)
+                }
+            }
+        };
+        if call.starts_with("h(") && !void_ret && rng.chance(2, 3) {
+            out.push_str(&format!("    {} r{} = {};\n    y = y + r{};\n", t, c, call, c));
+        } else {
+            out.push_str(&format!("    {};\n", call));
+        }
+    }
+    out.push_str(&format!("    return {};\n}}\n", rng.pick(&["g1", "x + g1", "y + g2", "g1 - x", "x"])));
+    out
 }
 
 pub fn dump(path: &str) {
